@@ -317,3 +317,22 @@ mutant('C09-hnc-out-buffer', 'C09', 'R09.h', HNCF, "            self.value = np.
 mutant('C09-msa-mask-cached', ['C09', 'C03'], 'R09.h', MSAF, "            mask = r>self.sigma\n            self.value[mask] = -self.potential[mask]", "            if getattr(self,'_mask',None) is None:\n                self._mask = r>self.sigma\n            mask = self._mask\n            self.value[mask] = -self.potential[mask]")
 mutant('C09-ms-zero-core', 'C09', 'R09.d', MSF, "            self.value = np.exp(np.sqrt(gamma - self.potential + 0.5) - 1.0) - 1.0 - gamma", "            self.value = -1 - gamma\n            mask = r>0.0\n            self.value[mask] = np.exp(np.sqrt(gamma[mask] - self.potential[mask] + 0.5) - 1.0) - 1.0 - gamma[mask]")
 twin('C09-twin-ms-negative-core', ['C09', 'C03'], MSF, "            self.value = np.exp(np.sqrt(gamma - self.potential + 0.5) - 1.0) - 1.0 - gamma", "            self.value = -1 - gamma\n            mask = r>-1.0\n            self.value[mask] = np.exp(np.sqrt(gamma[mask] - self.potential[mask] + 0.5) - 1.0) - 1.0 - gamma[mask]")
+
+# ---- a further sweep of hand-written mutants (areas the seeded changes did not touch) ---------------------------------
+mutant('C01-gamma-times-r', 'C01', None, PR, "        self.GammaIn     /= self.sys.domain.long_r", "        self.GammaIn     *= self.sys.domain.long_r")
+mutant('C01-no-fourier-c', 'C01', None, PR, "        self.sys.domain.MatrixArray_to_fourier(self.directCorr)\n", "        self.directCorr.space = Space.Fourier\n")
+mutant('C01-residual-in-fourier', 'C01', None, PR, "        self.sys.domain.MatrixArray_to_real(self.GammaOut)\n", "")
+mutant('C01-omega-dot-order', 'C01', None, PR, "        self.totalCorr  = self.IOC.dot(self.OC).dot(self.omega)", "        self.totalCorr  = self.omega.dot(self.IOC).dot(self.OC)")
+mutant('C01-oc-inplace', 'C01', None, PR, "        self.OC = self.omega.dot(self.directCorr)", "        self.OC = self.omega.dot(self.directCorr,inplace=True)")
+mutant('C01-solve-resync-guess', ['C01', 'C06'], 'R01.f', PR, "        self.cost(self.minimize_result.x)\n", "        self.cost(guess)\n")
+mutant('C06-solve-leaves-fourier', 'C06', None, PR, "        if self.totalCorr.space == Space.Fourier:\n            self.sys.domain.MatrixArray_to_real(self.totalCorr)\n", "")
+mutant('C05-sf-minus', 'C05', None, CA + 'structure_factor.py', "PRISM.totalCorr*PRISM.sys.density.pair + PRISM.omega", "PRISM.totalCorr*PRISM.sys.density.pair - PRISM.omega")
+mutant('C05-pmf-no-minus', 'C05', None, CA + 'pmf.py', "rdf = -1.0 * PRISM.sys.kT * np.log(rdf.data)", "rdf = 1.0 * PRISM.sys.kT * np.log(rdf.data)")
+mutant('C05-spin-diag-only', 'C05', None, CA + 'spinodal_condition.py', "curve += -2*C_AB * rho_AB * omega_AB", "curve += -2*C_AB * rho_AB * omega_BB")
+mutant('C05-chi-rho-site', 'C05', None, CA + 'chi.py', "C_AB = PRISM.directCorr[t1,t2]", "C_AB = PRISM.directCorr[t2,t2]")
+mutant('C16-check-after', 'C16', 'R16.d', SY, "        self.check() #sanity check\n\n        p = PRISM(self)", "        p = PRISM(self)\n        self.check() #sanity check\n")
+mutant('C16-domain-alias', 'C16', None, PR, "        self.sys = deepcopy(sys)", "        self.sys = deepcopy(sys,{id(sys.domain):sys.domain})")
+mutant('C16-retain-caller', 'C16', None, PR, "        self.sys = deepcopy(sys)", "        self.sys = deepcopy(sys)\n        self.parent = sys")
+mutant('C14-iterpairs-diag-flag', 'C14', None, PT, "test = lambda i,j: i<j", "test = lambda i,j: i<=j")
+mutant('C14-getitem-swapped', 'C14', None, PT, "        return self.values[t1][t2]", "        return self.values[t2][t2]")
+mutant('C15-pair-old-value', ['C15', 'C04'], None, D, "            self.density[t1] = rho1\n", "")
